@@ -18,6 +18,9 @@ INTERNAL = "packet::Packet::to_bytes_internal"
 
 
 def check(env, rep, tier):
+    include(rep, env, tier, "c01", ("C01.4",), "C04.7",
+            "'the output has exactly the accounted length': every value in the option map is emitted with the header its true delta and "
+            "length need (a stale delta base makes the image shorter than what was compared with the limit)")
     configs = ["default", "udp"] if tier == "quick" else ["default", "nodefault", "udp"]     # MAX_SIZE is feature-dependent: both values on every change
     rep.configs = configs
     for cfg in configs:
